@@ -43,6 +43,9 @@ def log(*a):
     print(*a, flush=True)
 
 
+HANG_CPU = int(os.environ.get("VERIF_HANG_CPU", "120"))  # CPU seconds that confirm a nominated hang
+
+
 class Inconclusive(Exception):
     pass
 
@@ -215,6 +218,7 @@ def check(pid, tier, seed):
         for h in spec.get("helpers", []):
             if h in ("cli-v5", "cli-legacy"):
                 helper_env["VERIF_CLI_" + h[4:].upper()] = run.build_cli(h[4:])
+        u_pkg = {u["test"]: u.get("pkg", spec["pkg"]) for u in spec["units"]}
         for u in spec["units"]:
             if tier not in u.get("tiers", ("quick", "thorough")):
                 continue
@@ -283,6 +287,27 @@ def check(pid, tier, seed):
                     m = re.search(r"OK, passed (\d+) tests", out)
                     if m and int(m.group(1)) < j.requested:
                         inconclusive.append("%s: only %s of %d cases ran" % (j.name, m.group(1), j.requested))
+                continue
+            if os.path.exists(j.failpath + ".hang"):
+                # the per-case watchdog nominated a hang: confirm it in a fresh process under a CPU-time limit
+                hp = j.failpath + ".hang"
+                try:
+                    with open(hp) as f:
+                        obj = json.load(f)
+                    obj["message"] = "a call did not return: the case was stopped by the watchdog after %ss of wall-clock time and again, alone in a fresh process, by the kernel after %d s of CPU time" % (os.environ.get("VERIF_HANG_WALL", "30"), HANG_CPU)
+                    obj.setdefault("pkg", u_pkg.get(j.name.rsplit(".", 1)[0], spec["pkg"]))
+                    with open(hp, "w") as f:
+                        json.dump(obj, f, indent=1)
+                    r = replay_files(run, spec, bins, [hp], cpu_limit=HANG_CPU)
+                    status = r.get(hp, ("ERROR", ""))[0]
+                except Exception as e:
+                    status = "ERROR %s" % e
+                if status in ("HANG", "FAIL"):
+                    # FAIL: alone in a fresh process the case dies (e.g. the runtime's "all goroutines are asleep - deadlock!")
+                    violations.append(save_replay(pid, hp))
+                    log("---- %s: hang confirmed in a fresh process (%s)" % (j.name, r.get(hp, ("", ""))[1][:300]))
+                else:
+                    inconclusive.append("%s: a case exceeded the wall-clock watchdog but the confirmation run ended with %s (slow, not a hang)" % (j.name, status))
                 continue
             if os.path.exists(j.failpath):
                 violations.append(save_replay(pid, j.failpath))
@@ -366,8 +391,10 @@ def check(pid, tier, seed):
     return 0
 
 
-def replay_files(run, spec, bins, files):
-    """Re-run saved cases through TestReplay of the package(s); returns path -> (status, msg)."""
+def replay_files(run, spec, bins, files, cpu_limit=None):
+    """Re-run saved cases through TestReplay of the package(s); returns path -> (status, msg).
+    With cpu_limit (seconds of CPU time, RLIMIT_CPU) a process that the kernel
+    stops for exceeding it yields status HANG for the files it had not answered."""
     res = {}
     if not files:
         return res
@@ -395,8 +422,19 @@ def replay_files(run, spec, bins, files):
                 env["VERIF_CLI_" + h[4:].upper()] = run.build_cli(h[4:])
         wd = os.path.join(run.dir, "wd", "replay-" + pkg)
         os.makedirs(wd, exist_ok=True)
-        p = subprocess.run([bins[(pkg, race)], "-test.run", "^TestReplay$", "-test.count", "1", "-test.timeout", "600s"],
-                           cwd=wd, env=env, stdout=subprocess.PIPE, stderr=subprocess.STDOUT, text=True)
+        pre = None
+        if cpu_limit:
+            def pre(lim=cpu_limit):
+                import resource
+                resource.setrlimit(resource.RLIMIT_CPU, (lim, lim + 5))
+        try:
+            p = subprocess.run([bins[(pkg, race)], "-test.run", "^TestReplay$", "-test.count", "1", "-test.timeout", "0" if cpu_limit else "600s"],
+                               cwd=wd, env=env, stdout=subprocess.PIPE, stderr=subprocess.STDOUT, text=True, errors="replace", preexec_fn=pre,
+                               timeout=(20 * cpu_limit) if cpu_limit else 900)
+        except subprocess.TimeoutExpired:
+            for f in fs:
+                res[f] = ("ERROR", "replay process exceeded its wall-clock cap")
+            continue
         for line in p.stdout.splitlines():
             if line.startswith("REPLAY "):
                 parts = line.split(" ", 3)
@@ -405,7 +443,10 @@ def replay_files(run, spec, bins, files):
         for f in fs:
             if f not in res:
                 # the process died before reporting this file
-                res[f] = ("FAIL" if p.returncode != 0 else "ERROR", "no verdict line; output tail: " + p.stdout[-600:].replace("\n", " | "))
+                if cpu_limit and p.returncode in (-signal.SIGXCPU, -signal.SIGKILL):
+                    res[f] = ("HANG", "stopped by the kernel after %d s of CPU time" % cpu_limit)
+                else:
+                    res[f] = ("FAIL" if p.returncode != 0 else "ERROR", "no verdict line; output tail: " + p.stdout[-600:].replace("\n", " | "))
     return res
 
 
